@@ -159,7 +159,7 @@ Section Good.
         rewrite P4. apply (g_temp _ _ G).
         * intros X. apply (f_equal (@length _)) in X. rewrite E in X. unfold staging_dir in X.
           rewrite !app_length in X. simpl in X. destruct cs; try congruence. simpl in X. lia.
-        * intros X. apply (f_equal (@length _)) in X. unfold sp, staging_dir, stage_path in X.
+        * intros X. apply (f_equal (@length _)) in X. unfold sp, stp, staging_dir, stage_path in X.
           rewrite !app_length in X. simpl in X. lia.
         * intros j Hj X. unfold staging_dir in X. apply app_inv_head in X.
           destruct cs as [|c1 cs']; destruct j; simpl in X; try discriminate; try lia.
